@@ -56,6 +56,52 @@ def obs(s, nf):
             [int(i) for i in s.mol_indices])
 
 
+def spec_counts(spec, nf):
+    """(count, per-bit sums) a sub-cluster specification stands for"""
+    if spec[0] == "single":
+        return 1, [int(v) for v in spec[1]]
+    if spec[0] == "buffer":
+        return int(spec[2]), [int(v) for v in spec[1]]
+    return 0, [0] * nf
+
+
+def sub_violation(case):
+    """C02 on one _BFSubcluster operation, against exact integer arithmetic (no model, nothing of the
+    implementation): after update / an accepted merge the stored count is the sum of the two counts, the
+    stored per-bit sums are the sums of the two, the counters have the narrowest width that holds the count
+    and the centroid is the majority vote of the stored sums; a rejected merge changes nothing"""
+    import bblean._merges as M
+    a, b, opk, nf = case["a"], case["b"], case["op"], case["nf"]
+    a = tuple(a)
+    b = tuple(b)
+    sa, sb = mk_impl_sub(a, nf), mk_impl_sub(b, nf)
+    (na, ka), (nb, kb) = spec_counts(a, nf), spec_counts(b, nf)
+    before_b = obs(sb, nf)
+    if opk == "update":
+        sa.update(sb)
+        ok = True
+    elif opk == "merge":
+        fn = M.get_merge_accept_fn(case["crit"], 0.05 if case["tol"] is None else case["tol"])
+        ok = sa.merge_subcluster(sb, case["thr"], fn)
+    else:
+        return None
+    if obs(sb, nf) != before_b:
+        return "the argument sub-cluster was modified"
+    bits, n, ks, cent, ids = obs(sa, nf)
+    want_n, want_ks = (na + nb, [x + y for x, y in zip(ka, kb)]) if ok else (na, ka)
+    if n != want_n:
+        return f"{opk}: stored count {n}, the two clusters hold {want_n} fingerprints"
+    if ks != want_ks:
+        d = [(j, x, y) for j, (x, y) in enumerate(zip(ks, want_ks)) if x != y][:4]
+        return (f"{opk} of clusters with {na} and {nb} members: stored per-bit sums differ from the sums of the "
+                f"two clusters at (bit, stored, expected) {d}")
+    if want_n > 0 and bits != minbits(want_n):
+        return f"{opk}: counters kept in uint{bits} for {want_n} members"
+    if want_n > 1 and cent != [1 if 2 * k >= want_n else 0 for k in want_ks]:
+        return f"{opk}: the centroid is not the majority vote of the stored sums"
+    return None
+
+
 def suite_sub(seed, tier):
     import bblean._merges as M
     rng = random.Random(seed)
@@ -104,6 +150,16 @@ def suite_sub(seed, tier):
                           "a": a, "b": b, "op": opk})
         terms.append(term)
         meta.append({"a": a, "b": b, "op": opk, "impl": res})
+        if opk in ("update", "merge"):
+            case = {"a": list(a), "b": list(b), "op": opk, "nf": nf}
+            if opk == "merge":
+                case.update(crit=crit, tol=tol, thr=thr)
+            try:
+                v = sub_violation(case)
+            except ValueError:
+                v = None                        # counts beyond uint64 are refused (checked below)
+            if v:
+                r.bad.append({"suite": "sub-unit", "what": v, "sub_case": case})
     pre = hist.exp_preamble(300, [m['a'][2] for m in meta if m['a'][0] == 'buffer'])
     out = eval_cases("sub", pre, terms, shard=300)
     r.cases = len(terms)
